@@ -54,7 +54,7 @@ fn templates(thorough: bool) -> Vec<(Vec<Res>, &'static str)> {
         }
     }
     // three resources over up to three types, values from a well-behaved subset (repeat / distinct patterns)
-    let good = [s("s"), i(5), V::Bool(true), s("s t")];
+    let good: Vec<V> = if thorough { vec![s("s"), i(5), V::Bool(true), s("s t"), s("5"), f(1.5), i(-5), V::Null, s("it's"), s(""), l(vec![]), m(vec![("k", i(1))])] } else { vec![s("s"), i(5), V::Bool(true), s("s t")] };
     for a in &good {
         for b in &good {
             for c in &good {
@@ -72,6 +72,7 @@ fn templates(thorough: bool) -> Vec<(Vec<Res>, &'static str)> {
         }
     }
     if thorough {
+        let good = [s("s"), i(5), V::Bool(true), s("s t")];
         for a in &good {
             for b in &good {
                 for c in &good {
